@@ -19,7 +19,7 @@ CLAIMED = {
         "correspondence, not proved; Fernet idealised.",
    technique="Lean 4 proof (induction on strings) + model/implementation correspondence on operation histories", ref="6 C14"),
  "C17": dict(
-   text="Lean theorems for every value/type/timestamp string and every crypto instance satisfying functional correctness (Sound): round trip in "
+   text="The relying-party side cookie module the anchors name (idpyoidc.client.cookie) has a model of its own (Model/ClientCookie.lean) with client_signed_roundtrip, client_enc_roundtrip, client_enc_unique_parse (the clear-text timestamp is the associated data), client_signed_unique_parse_partial (timestamps of one length) and the proved boundary-shift witness (F-C17-d, known: the repository's test pins the unframed tag); tie: make_cookie / parse_cookie on mutated and forged values. Lean theorems for every value/type/timestamp string and every crypto instance satisfying functional correctness (Sound): round trip in "
         "the four key configurations under the forced separator guards (with counter-example theorems for the guards), unique parse of "
         "authenticated bytes in signed+encrypted mode under ciphertext integrity and in signed-only mode under MAC unforgeability "
         "(signed_unique_parse: the MAC input frames payload and timestamp, lv_pack is injective — pack_injective — so no boundary can move; "
@@ -48,7 +48,7 @@ CLAIMED = {
    note="Interleaving granularity is the API step; thread-level races inside one call are runtime behaviour outside the model. ID-token signing failure path not exercised.",
    technique="Lean 4 proof: history invariant by induction + decision-logic theorems; exhaustive schedule enumeration for the correspondence", ref="6 C02"),
  "C05": dict(
-   text="Lean theorems on the provider core model. History invariant, by induction over ALL API-step histories (authorize, code redemption with "
+   text="deny_unknown_scopes (provider preference or the client's own setting) is part of the model's authorization step: deny_unknown_refuses (a request naming a scope outside what the client may use creates nothing) and deny_unknown_grants_exactly. Lean theorems on the provider core model. History invariant, by induction over ALL API-step histories (authorize, code redemption with "
         "parse/process interleaved, refresh with or without explicit scope, token exchange by the owning or another client, revocations, logouts, "
         "removals, clock): every token the provider holds, however long its minting chain, carries a scope within the scope recorded for its own "
         "grant (scope_bounded), an exchange delivers only within the subject token's scope and within what was asked (exchange_never_widens, "
@@ -165,9 +165,10 @@ CLAIMED = {
         "the answering session is the minting one; the full slot x class separation table; genuine tokens of a wrong class refused; a bearer token accepted as CLIENT authentication is a live access token of this provider (bearer_auth_needs_live_access_token). Tie: "
         "worlds with many live sessions, byte-level and structural mutations of every genuine token (bit flips, truncation, extension, "
         "alphabet change, JWT segment swaps, alg rewrites, payload edits, re-signing with foreign keys, session ids as tokens) offered in "
-        "every slot of every endpoint (incl. bearer client authentication with a claimed client_id, token exchange subject slots, the session manager's own lookups, providers sharing JWT keys); oracle: honoured implies minted with accepted class; refused probes leave the state unchanged.",
-   note="DefaultToken.info / JWTToken.info / handler order sit at the interface (`decode`); 'expired signature' and 'foreign key' refusals are observed by "
-        "correspondence; accepting behaviour of the mutating slots is C02/C03.",
+        "every slot of every endpoint (incl. bearer client authentication with a claimed client_id, token exchange subject slots, the session manager's own lookups, providers sharing JWT keys); oracle: honoured implies minted with accepted class; refused probes leave the state unchanged. "
+        "The handler layer ITSELF is a second model (Model/Handler.lean: DefaultToken.info = decrypt, lv_unpack, class-tag test; TokenHandler.get_handler and what it swallows; the session manager's class slot; cipher idealised; class tags and handler order regenerated from the source as Gen.handlerTags with the obligation generated_tags_ok): genuine_token_found_by_own_handler (whatever keys the handlers use, one shared key included, whatever the order), handler_accepts_only_own_key_and_tag, genuine_token_refused_in_other_slot, genuine_token_resolves_to_its_sid; tie: hostile plaintexts (missing / extra fields, foreign and alternative tags, wrong length prefixes, white space) encrypted under the real keys against the model, per handler, through get_handler and get_session_info_by_token.",
+   note="JWTToken.info sits at the interface (`decode`); 'expired signature' and 'foreign key' refusals are observed by "
+        "correspondence; accepting behaviour of the mutating slots is C02/C03; Python's int() leniencies in a length prefix (sign, blank, underscore) are outside the LV model's domain and not generated.",
    technique="Lean 4 proof (decision logic, crypto-independent) + mutation correspondence at every endpoint slot", ref="6 C04"),
  "C13": dict(
    text="Lean theorems: (export/import) load of a dump into a fresh instance is the identity on every attribute that is exported or re-derived by "
